@@ -7,7 +7,7 @@ Q2 the parallel block lists are trimmed identically and the read span is recompu
 import ast
 
 from ..engine.program import AnalysisError, dotted, src, walk_no_nested, call_name
-from ..engine import flow
+from ..engine import flow, symexec
 
 COMMON = "src/common.py"
 
@@ -279,63 +279,308 @@ def q1_move_ref(prog, ctx, members, helpers):
     return n
 
 
-def q2(prog, ctx):
+# ---------------------------------------------------------------------------
+# Q2: slice-chain simulation of the trimming step (self-calls inlined)
+# ---------------------------------------------------------------------------
+
+TRACKED = ("read_exons", "read_blocks", "cigar_blocks")
+
+
+class _TrimState:
+    def __init__(self):
+        self.chain = {a: () for a in TRACKED}       # slices applied to the list since entry, in order
+        self.bad = {}                               # attr -> reason it is no longer a slice of itself
+        self.derived = {}                           # read_start / read_end -> value
+        self.changed = False                        # self.exons_changed (False in __init__)
+        self.shift_after_cut = []                   # shift_poly* calls whose list argument is shorter than the list being cut
+        self.events = []
+
+    def copy(self):
+        n = _TrimState()
+        n.chain, n.bad, n.derived, n.changed = dict(self.chain), dict(self.bad), dict(self.derived), self.changed
+        n.shift_after_cut, n.events = list(self.shift_after_cut), list(self.events)
+        return n
+
+
+class _TrimSim:
+    def __init__(self, prog, clsdef):
+        self.prog = prog
+        self.methods = prog.methods_of(clsdef)
+        self.depth = 0
+
+    def ev(self, e, env, st):
+        """-> ('chain', attr, slices) | ('elem', attr, slices, index text) | ('expr', ast)"""
+        if isinstance(e, ast.Attribute) and isinstance(e.value, ast.Name) and e.value.id == "self" and e.attr in TRACKED:
+            return ("chain", e.attr, st.chain[e.attr])
+        if isinstance(e, ast.Name) and e.id in env:
+            return env[e.id]
+        if isinstance(e, ast.Subscript):
+            base = self.ev(e.value, env, st)
+            if base[0] == "chain" and isinstance(e.slice, ast.Slice):
+                return ("chain", base[1], base[2] + ("[%s]" % self.text(e.slice, env),))
+            if base[0] == "chain":
+                return ("elem", base[1], base[2], "[%s]" % self.text(e.slice, env))
+            if base[0] == "elem":
+                return ("elem", base[1], base[2], base[3] + "[%s]" % self.text(e.slice, env))
+        return ("expr", symexec.subst(e, {k: v[1] for k, v in env.items() if v[0] == "expr"}))
+
+    def text(self, e, env):
+        return src(symexec.subst(e, {k: v[1] for k, v in env.items() if v[0] == "expr"}))
+
+    def run_function(self, f, env, st):
+        """All end states of f started in st (paths enumerated; loops 0/1)."""
+        outs = []
+        for p in flow.paths(f):
+            states = [(st.copy(), dict(env))]
+            for evn in p.events:
+                nxt = []
+                for s, en in states:
+                    nxt.extend(self.step(evn, s, en))
+                states = nxt
+                if not states:
+                    break
+            outs.extend(s for s, _e in states)
+        return outs
+
+    def step(self, evn, st, env):
+        if evn[0] == "cond":
+            t, pol = evn[1], evn[2]
+            if isinstance(t, ast.UnaryOp) and isinstance(t.op, ast.Not):
+                t, pol = t.operand, not pol
+            if src(t) == "self.exons_changed" and st.changed != pol:
+                return []                          # infeasible
+            return [(st, env)]
+        if evn[0] != "stmt":
+            return [(st, env)]
+        s = evn[1]
+        if isinstance(s, ast.Assign):
+            val = self.ev(s.value, env, st)
+            for t in s.targets:
+                if isinstance(t, ast.Name):
+                    env[t.id] = val
+                elif isinstance(t, (ast.Tuple, ast.List)):
+                    for x in t.elts:
+                        if isinstance(x, ast.Name):
+                            env[x.id] = ("expr", ast.Name(id=x.id, ctx=ast.Load()))
+                elif isinstance(t, ast.Attribute) and isinstance(t.value, ast.Name) and t.value.id == "self":
+                    if t.attr in TRACKED:
+                        if val[0] == "chain" and val[1] == t.attr:
+                            st.chain[t.attr] = val[2]
+                        elif val[0] == "chain":
+                            st.bad[t.attr] = "assigned from a slice of self.%s" % val[1]
+                        else:
+                            st.bad[t.attr] = "assigned %s" % src(s.value)[:60]
+                        st.events.append(s)
+                    elif t.attr in ("read_start", "read_end"):
+                        st.derived[t.attr] = val
+                    elif t.attr == "exons_changed":
+                        if isinstance(s.value, ast.Constant) and isinstance(s.value.value, bool):
+                            st.changed = s.value.value
+            for c in ast.walk(s.value):
+                if isinstance(c, ast.Call) and (call_name(c) or "").startswith("shift_poly") and c.args:
+                    a = self.ev(c.args[0], env, st)
+                    if a[0] != "chain" or a[1] != "read_exons":
+                        st.bad.setdefault("shift", "%s is not given the exon list" % src(c)[:50])
+            return [(st, env)]
+        if isinstance(s, ast.Expr) and isinstance(s.value, ast.Call) and isinstance(s.value.func, ast.Attribute) \
+                and isinstance(s.value.func.value, ast.Name) and s.value.func.value.id == "self" and s.value.func.attr in self.methods \
+                and self.depth < 3:
+            callee = self.methods[s.value.func.attr]
+            params = [a.arg for a in callee.args.args][1:]
+            cenv = {}
+            for pn, a in zip(params, s.value.args):
+                cenv[pn] = self.ev(a, env, st)
+            for k in s.value.keywords:
+                if k.arg:
+                    cenv[k.arg] = self.ev(k.value, env, st)
+            self.depth += 1
+            try:
+                outs = self.run_function(callee, cenv, st)
+            finally:
+                self.depth -= 1
+            return [(o, dict(env)) for o in outs]
+        return [(st, env)]
+
+
+def q2(prog, ctx, tag="Q2"):
     rel = "src/alignment_info.py"
+    cls = prog.cls(rel, "AlignmentInfo")
     f = prog.func(rel, "AlignmentInfo.add_polya_info")
-    lists = ("self.read_exons", "self.read_blocks", "self.cigar_blocks")
-    branches = [s for s in f.body if isinstance(s, ast.If)]
+    init = prog.func(rel, "AlignmentInfo.__init__")
+    if not any(src(s) == "self.exons_changed = False" for s in walk_no_nested(init)):
+        raise AnalysisError("AlignmentInfo.__init__ no longer initialises exons_changed to False")
+    sim = _TrimSim(prog, cls)
+    ends = sim.run_function(f, {}, _TrimState())
     n = 0
-    for br in branches:
-        slices = {}
-        for st in br.body:
-            if isinstance(st, ast.Assign) and dotted(st.targets[0]) in lists and isinstance(st.value, ast.Subscript):
-                if dotted(st.value.value) != dotted(st.targets[0]):
-                    ctx.fail("Q2", st, f._qualname, src(st), "list trimmed from another list")
-                slices[dotted(st.targets[0])] = src(st.value.slice)
-        if not slices:
+    seen = set()
+    for st in ends:
+        chains = tuple(st.chain[a] for a in TRACKED)
+        key = (chains, tuple(sorted(st.bad.items())), tuple(sorted((k, str(v[:1]) + str(v[2:]) if v[0] != "expr" else src(v[1])) for k, v in st.derived.items())))
+        if key in seen:
             continue
+        seen.add(key)
         n += 1
-        if set(slices) != set(lists) or len(set(slices.values())) != 1:
-            ctx.fail("Q2", br, f._qualname, "if %s: %s" % (src(br.test), slices),
-                     "the parallel lists read_exons / read_blocks / cigar_blocks are not trimmed with one identical slice "
-                     "(%s): exon i no longer corresponds to read block i" % slices)
-        else:
-            ctx.ok("Q2", "%s:%d" % (rel, br.lineno), "all three lists trimmed with [%s]" % list(slices.values())[0])
-        # the trim is recorded
-        if not any(isinstance(st, ast.Assign) and dotted(st.targets[0]) == "self.exons_changed" and src(st.value) == "True"
-                   for st in br.body):
-            ctx.fail("Q2", br, f._qualname, "if %s" % src(br.test), "trimming branch does not set exons_changed")
-        # the tail position is shifted before the exons are cut (shift_* needs the untrimmed list)
-        shift_lines = [c.lineno for c in ast.walk(br) if isinstance(c, ast.Call) and (call_name(c) or "").startswith("shift_poly")]
-        cut_lines = [st.lineno for st in br.body if isinstance(st, ast.Assign) and dotted(st.targets[0]) == "self.read_exons"]
-        if not shift_lines or not cut_lines or max(shift_lines) > min(cut_lines):
-            ctx.fail("Q2", br, f._qualname, "if %s" % src(br.test), "tail position must be moved onto the retained exon (shift_poly*) before trimming")
-        else:
-            ctx.ok("Q2", "%s:%d" % (rel, br.lineno), "tail positions shifted before the lists are cut")
-    ctx.floor("Q2", "trimming branches", n, 2)
-    # read_start/read_end recomputed from the trimmed list
-    tail = [s for s in f.body if isinstance(s, ast.If) and "exons_changed" in src(s.test)]
-    ok_tail = tail and any(src(s) == "self.read_start = self.read_exons[0][0]" for s in tail[-1].body) and \
-        any(src(s) == "self.read_end = self.read_exons[-1][1]" for s in tail[-1].body)
-    if not ok_tail:
-        ctx.fail("Q2", f, f._qualname, "read_start/read_end", "read span is not recomputed from the trimmed exon list")
-    else:
-        ctx.ok("Q2", "%s:%d" % (rel, tail[-1].lineno), "read_start/read_end recomputed from trimmed read_exons")
+        where = st.events[-1] if st.events else f
+        desc = "; ".join("%s%s" % (a, "".join(st.chain[a])) for a in TRACKED)
+        if st.bad:
+            a, why = sorted(st.bad.items())[0]
+            ctx.fail(tag, where, f._qualname, "%s: %s" % (a, why), "on a path of the trimming step self.%s is %s: it is no longer the "
+                     "same slice of its own previous value as its sister lists, so exon i no longer corresponds to read block i" % (a, why))
+            continue
+        if len(set(chains)) != 1:
+            ctx.fail(tag, where, f._qualname, desc,
+                     "after the polyA/polyT trimming step the three parallel lists are different slices of their original values (%s): "
+                     "exon i no longer corresponds to read block i / cigar block i (a trimmed terminal exon comes back, or a block is lost)" % desc)
+            continue
+        final = st.chain["read_exons"]
+        if final:
+            want = {"read_start": ("elem", "read_exons", final, "[0][0]"), "read_end": ("elem", "read_exons", final, "[-1][1]")}
+            badd = [k for k in want if st.derived.get(k) != want[k]]
+            if badd:
+                got = st.derived.get(badd[0])
+                ctx.fail(tag, where, f._qualname, "%s after %s" % (badd[0], "".join(final)),
+                         "exons were trimmed (read_exons%s) but self.%s is %s: the read span must be recomputed from the list as it is after "
+                         "the last trim" % ("".join(final), badd[0], "not recomputed" if got is None else
+                                            ("taken from read_exons%s%s" % ("".join(got[2]), got[3]) if got[0] == "elem" else src(got[1]))))
+                continue
+            if not st.changed:
+                ctx.fail(tag, where, f._qualname, "exons_changed", "exons were trimmed but exons_changed is not set on this path")
+                continue
+        ctx.ok(tag, "%s:%d" % (rel, f.lineno), "path outcome: %s; read span %s" % (desc, "recomputed from the final list" if final else "untouched"))
+    ctx.floor(tag, "distinct outcomes of the trimming step", n, 4)
+    # the tail position is moved with the list as it is before the cut of the same side: shift_poly* is called before the cut in its block
+    for m, q, g in prog.all_functions():
+        if m.rel != rel:
+            continue
+        for blk_owner in ast.walk(g):
+            body = getattr(blk_owner, "body", None)
+            if not isinstance(body, list):
+                continue
+            cuts = [s for s in body if isinstance(s, ast.Assign) and dotted(s.targets[0]) == "self.read_exons" and isinstance(s.value, ast.Subscript)]
+            shifts = [s for s in body if any(isinstance(c, ast.Call) and (call_name(c) or "").startswith("shift_poly") for c in ast.walk(s))]
+            if cuts and shifts and max(s.lineno for s in shifts) > min(s.lineno for s in cuts):
+                ctx.fail(tag, cuts[0], q, src(cuts[0]), "the exon list is cut before the tail position is moved onto the retained exon (shift_poly*)")
     # correct_read_info never lets both counts consume all exons
     cf = prog.func("src/polya_verification.py", "PolyAFixer.correct_read_info")
     t = src(cf)
     if "polyt_exon_count + polya_exon_count == len(read_exons)" not in t or "polya_exon_count -= 1" not in t:
-        ctx.fail("Q2", cf, cf._qualname, "all-exons guard", "guard against trimming every exon (count sum == len(read_exons)) is missing")
+        ctx.fail(tag, cf, cf._qualname, "all-exons guard", "guard against trimming every exon (count sum == len(read_exons)) is missing")
     else:
-        ctx.ok("Q2", "src/polya_verification.py:%d" % cf.lineno, "guard against trimming all exons present")
+        ctx.ok(tag, "src/polya_verification.py:%d" % cf.lineno, "guard against trimming all exons present")
+
+
+# ---------------------------------------------------------------------------
+# Q3: where the walk along the alignment starts (leading / trailing clip operations are skipped, nothing else)
+# ---------------------------------------------------------------------------
+
+class _NoEval(Exception):
+    pass
+
+
+def _eval(e, env):
+    """Static evaluation of a pure expression over small concrete tuples (finite case analysis, no repository code is run)."""
+    if isinstance(e, ast.Constant):
+        return e.value
+    if isinstance(e, ast.Name):
+        if e.id in env:
+            return env[e.id]
+        raise _NoEval(e.id)
+    if isinstance(e, (ast.List, ast.Tuple, ast.Set)):
+        return [_eval(x, env) for x in e.elts]
+    if isinstance(e, ast.UnaryOp) and isinstance(e.op, ast.USub):
+        return -_eval(e.operand, env)
+    if isinstance(e, ast.UnaryOp) and isinstance(e.op, ast.Not):
+        return not _eval(e.operand, env)
+    if isinstance(e, ast.BinOp) and isinstance(e.op, (ast.Add, ast.Sub)):
+        l, r = _eval(e.left, env), _eval(e.right, env)
+        return l + r if isinstance(e.op, ast.Add) else l - r
+    if isinstance(e, ast.Subscript):
+        return _eval(e.value, env)[_eval(e.slice, env)]
+    if isinstance(e, ast.Call) and isinstance(e.func, ast.Name) and e.func.id == "len" and len(e.args) == 1:
+        return len(_eval(e.args[0], env))
+    if isinstance(e, ast.Attribute):
+        d = dotted(e)
+        if d in env:
+            return env[d]
+        raise _NoEval(d)
+    if isinstance(e, ast.BoolOp):
+        vals = e.values
+        if isinstance(e.op, ast.And):
+            for v in vals:
+                if not _eval(v, env):
+                    return False
+            return True
+        for v in vals:
+            if _eval(v, env):
+                return True
+        return False
+    if isinstance(e, ast.Compare) and len(e.ops) == 1:
+        l, r = _eval(e.left, env), _eval(e.comparators[0], env)
+        op = e.ops[0]
+        table = {ast.Eq: lambda: l == r, ast.NotEq: lambda: l != r, ast.Lt: lambda: l < r, ast.LtE: lambda: l <= r,
+                 ast.Gt: lambda: l > r, ast.GtE: lambda: l >= r, ast.In: lambda: l in r, ast.NotIn: lambda: l not in r}
+        if type(op) in table:
+            return table[type(op)]()
+    raise _NoEval(src(e)[:40])
+
+
+def _exec(stmts, env):
+    for st in stmts:
+        if isinstance(st, ast.Assign) and len(st.targets) == 1 and isinstance(st.targets[0], ast.Name):
+            env[st.targets[0].id] = _eval(st.value, env)
+        elif isinstance(st, ast.AugAssign) and isinstance(st.target, ast.Name) and isinstance(st.op, (ast.Add, ast.Sub)):
+            v = _eval(st.value, env)
+            env[st.target.id] = env[st.target.id] + v if isinstance(st.op, ast.Add) else env[st.target.id] - v
+        elif isinstance(st, ast.If):
+            _exec(st.body if _eval(st.test, env) else st.orelse, env)
+        elif isinstance(st, (ast.Expr, ast.Pass)):
+            continue
+        else:
+            raise _NoEval(src(st)[:40])
+
+
+def q3(prog, ctx, members):
+    rel = "src/polya_finder.py"
+    f = prog.func(rel, "move_ref_coord_alogn_alignment")
+    loop = [s for s in f.body if isinstance(s, ast.While)][0]
+    pre = [s for s in f.body if isinstance(s, ast.If) and s.lineno < loop.lineno and "current_pos" in src(s)]
+    if len(pre) != 1 or "direction" not in src(pre[0].test):
+        raise AnalysisError("move_ref_coord_alogn_alignment: start-position block (if direction == 1 ... else ...) not found")
+    S, H, M = members["soft_clipping"], members["hard_clipping"], members["match"]
+    enum_env = {"CigarEvent.%s" % k: v for k, v in members.items()}
+    n = 0
+    for direction in (1, -1):
+        for clips in ([], [S], [H], [H, S]):
+            ops = clips + [M, M]
+            tuples = [(o, 10) for o in ops]
+            if direction == -1:
+                tuples = list(reversed(tuples))
+            env = dict(enum_env, cigar_tuples=tuples, direction=direction)
+            try:
+                _exec([pre[0]], env)
+            except (_NoEval, IndexError, KeyError, TypeError) as e:
+                raise AnalysisError("move_ref_coord_alogn_alignment: start-position block is not statically evaluable (%s)" % e)
+            want = len(clips) if direction == 1 else -1 - len(clips)
+            n += 1
+            name = "+".join({S: "S", H: "H"}[c] for c in clips) or "no clip"
+            if env.get("current_pos") != want:
+                ctx.fail("Q3", pre[0], "move_ref_coord_alogn_alignment", "%s, %s end" % (name, "left" if direction == 1 else "right"),
+                         "for an alignment whose %s end carries [%s] the walk starts at operation index %s, expected %d (just past the clip "
+                         "operations, which consume no reference): it starts on a clip operation, stops at once and the tail position is "
+                         "computed as if no base had been walked" % ("left" if direction == 1 else "right", name, env.get("current_pos"), want))
+            else:
+                ctx.ok("Q3", "%s:%d" % (rel, pre[0].lineno), "%s end with [%s]: walk starts at index %d" % ("left" if direction == 1 else "right", name, want))
+    ctx.floor("Q3", "clip shapes x directions", n, 8)
 
 
 def run(prog, ctx):
     ctx.rule("Q1", "abstract evaluation of the CIGAR walkers' branch structure for each CigarEvent member and block state: the "
                    "(query, reference) cursor increments equal the SAM consumption table, by the op length; only N and S close a "
                    "block, M/=/X/I/D open one; a block is recorded into the three parallel lists together and only under has_match")
-    ctx.rule("Q2", "polyA/polyT trimming cuts read_exons, read_blocks and cigar_blocks with the identical slice, after shifting the "
-                   "tail position, and recomputes read_start/read_end; trimming all exons is guarded")
+    ctx.rule("Q2", "slice-chain simulation of AlignmentInfo.add_polya_info with self-calls inlined: on every feasible path the three "
+                   "parallel lists end as the same chain of slices of their own original values, read_start/read_end are taken from "
+                   "read_exons as it is after the last trim, exons_changed is set; the tail position is shifted before the cut; "
+                   "trimming all exons is guarded")
     members, helpers = cigar_enum(prog)
     for name, code in SAM_CODE.items():
         if members.get(name) != code:
@@ -346,6 +591,9 @@ def run(prog, ctx):
     n1 = q1_read_blocks(prog, ctx, members, helpers)
     n2 = q1_move_ref(prog, ctx, members, helpers)
     q2(prog, ctx)
+    ctx.rule("Q3", "finite case analysis of the start-position block of move_ref_coord_alogn_alignment: for clip shapes {none, S, H, H+S} "
+                   "at the walked end, in both directions, the first operation visited is the first non-clip operation")
+    q3(prog, ctx, members)
     ctx.floor("Q1", "op x state outcomes in get_read_blocks", n1, 18)
     ctx.floor("Q1", "op outcomes in move_ref_coord", n2, 9)
     ctx.extra["exhaustive"] = True
